@@ -154,6 +154,67 @@ theorem C05_transform2 {α β γ} (m1 m2 dstMap : Layout) (p1 : Nat → α) (p2 
   rw [fold_upd dstMap hd (fun t => f (semanticAt m1 p1 t) (semanticAt m2 p2 t)) _ dst s (fun t ht => mem_range'.mp ht) hs]
   simp [mem_range'.mpr hs]
 
+/-- in-place sequential semantic writes, each reading the current content of the slot it writes -/
+private theorem fold_upd_inplace {α} (m : Layout) (hm : IsPerm m) (g : Nat → α → α) :
+    ∀ (ss : List Nat) (d : Nat → α) (s : Nat), (∀ t ∈ ss, t < m.length) → ss.Nodup → s < m.length →
+      (ss.foldl (fun d t => upd d (m.phys t) (g t (semanticAt m d t))) d) (m.phys s) = if s ∈ ss then g s (d (m.phys s)) else d (m.phys s) := by
+  intro ss
+  induction ss with
+  | nil => intro d s _ _ _; simp
+  | cons t ts ih =>
+    intro d s hall hnd hs
+    simp only [List.foldl_cons]
+    have hnd' := List.nodup_cons.mp hnd
+    rw [ih _ s (fun t' ht' => hall t' (List.mem_cons_of_mem _ ht')) hnd'.2 hs]
+    by_cases hst : s = t
+    · subst hst; simp [hnd'.1, upd, semanticAt]
+    · have hne : m.phys s ≠ m.phys t := fun h => hst (phys_inj hm hs (hall t (List.mem_cons_self ..)) h)
+      simp [hst, upd, hne]
+
+/-- the in-place update writes colour by colour: colour `s` afterwards is `g s` of colour `s` before, for EVERY permutation layout -/
+theorem C05_update_in_place {α} (m : Layout) (acc : Nat → α) (g : Nat → α → α) (s : Nat) (hm : IsPerm m) (hs : s < m.length) :
+    semanticAt m (staticUpdateInPlace m acc g) s = g s (semanticAt m acc s) := by
+  unfold staticUpdateInPlace
+  show (List.foldl _ acc (List.range m.length)) (m.phys s) = _
+  rw [fold_upd_inplace m hm g _ acc s (fun t ht => mem_range'.mp ht) List.nodup_range hs]
+  simp [mem_range'.mpr hs, semanticAt]
+
+/-- two-source `static_transform` whose destination IS the first source (accumulate in place, `acc = f(acc, src)`): every colour `s`
+    of the result is `f (acc[s]) (src2[s])`, whatever the memory order of the accumulator and of the second source -/
+theorem C05_transform2_dst_is_src1 {α β} (m1 m2 : Layout) (acc : Nat → α) (p2 : Nat → β) (f : α → β → α) (s : Nat)
+    (h1 : IsPerm m1) (hs : s < m1.length) :
+    semanticAt m1 (staticTransform2Acc1 m1 m2 acc p2 f) s = f (semanticAt m1 acc s) (semanticAt m2 p2 s) :=
+  C05_update_in_place m1 acc _ s h1 hs
+
+/-- ... IS the second source -/
+theorem C05_transform2_dst_is_src2 {α β} (m1 m2 : Layout) (p1 : Nat → α) (acc : Nat → β) (f : α → β → β) (s : Nat)
+    (h2 : IsPerm m2) (hs : s < m2.length) :
+    semanticAt m2 (staticTransform2Acc2 m1 m2 p1 acc f) s = f (semanticAt m1 p1 s) (semanticAt m2 acc s) :=
+  C05_update_in_place m2 acc _ s h2 hs
+
+/-- ... one object in all three places -/
+theorem C05_transform2_all_aliased {α} (m : Layout) (acc : Nat → α) (f : α → α → α) (s : Nat) (hm : IsPerm m) (hs : s < m.length) :
+    semanticAt m (staticTransform2Self m acc f) s = f (semanticAt m acc s) (semanticAt m acc s) :=
+  C05_update_in_place m acc _ s hm hs
+
+/-- pairing by colour for ANY three layouts, aliased or not: the in-place result has the same colours as the out-of-place
+    `static_transform(acc, src2, dst, f)` into a fresh destination of any third permutation layout -/
+theorem C05_transform2_aliased_eq_fresh {α β} (m1 m2 m3 : Layout) (acc : Nat → α) (p2 : Nat → β) (dst : Nat → α) (f : α → β → α) (s : Nat)
+    (h1 : IsPerm m1) (h3 : IsPerm m3) (hlen : m3.length = m1.length) (hs : s < m1.length) :
+    semanticAt m1 (staticTransform2Acc1 m1 m2 acc p2 f) s = semanticAt m3 (staticTransform2 m1 m2 m3 acc p2 dst f) s := by
+  rw [C05_transform2_dst_is_src1 m1 m2 acc p2 f s h1 hs, C05_transform2 m1 m2 m3 acc p2 dst f s h3 (by omega)]
+
+/-- the i-th call of the three-base `static_for_each` gets slots `(m1[i], m2[i], m3[i])`: one colour -/
+theorem C05_visit_triples (m1 m2 m3 : Layout) (i : Nat) (hi : i < m1.length) :
+    (visitTriples m1 m2 m3).length = m1.length ∧ (visitTriples m1 m2 m3)[i]? = some (m1.phys i, m2.phys i, m3.phys i) := by
+  unfold visitTriples; simp [hi]
+
+-- non-vacuity (the seeded defect's example): rgb accumulator (10,20,30) += bgr-laid-out (r1,g2,b3), memory (3,2,1)
+example : (List.range 3).map (staticTransform2Acc1 [0, 1, 2] [2, 1, 0] (fun k => [10, 20, 30].getD k 0) (fun k => [3, 2, 1].getD k 0) (· + ·))
+    = [11, 22, 33] := by decide
+example : (List.range 4).map (staticTransform2Acc2 [1, 2, 3, 0] [2, 1, 0, 3] (fun k => [9, 1, 2, 3].getD k 0) (fun k => [30, 20, 10, 90].getD k 0) (fun a b => a * 100 + b))
+    = [330, 220, 110, 990] := by decide
+
 /-- each static algorithm visits each channel exactly once: the list of memory indices handed to the functor has
     length n and every memory index occurs at exactly one call position -/
 theorem C05_visit_once (m : Layout) (hm : IsPerm m) :
